@@ -196,6 +196,11 @@ pub fn gen_workspace(rng: &mut Rng, rich: bool, max_patches: usize, allow_fail: 
 /// `fail_pct`: chance that the series has a failing patch; `more_pct`: chance for each later patch to fail as well
 pub fn gen_workspace2(rng: &mut Rng, rich: bool, max_patches: usize, allow_fail: bool, fail_pct: u32, more_pct: u32) -> Workspace {
     let mut gt = rand_tree(rng, rich);
+    {
+        let mut dirs = INITIAL_DIRS.lock().unwrap();
+        dirs.clear();
+        for d in ["d", "d/e"] { if gt.keys().any(|k| k.starts_with(&format!("{}/", d))) { dirs.push(d.to_string()); } }
+    }
     let mut tree = Snap::new();
     for (n, f) in &gt { tree.insert(n.as_bytes().to_vec(), Entry::File(f.mode & 0o7777, f.lines.concat())); }
     if rng.chance(10) { tree.insert(b"emptydir".to_vec(), Entry::Dir); }
@@ -309,6 +314,9 @@ pub fn run<W: Write>(out: &mut W, seed: u64, n: usize, opts: &HashMap<String, St
     let pct = |k: &str, d: u32| -> u32 { opts.get(k).and_then(|s| s.parse().ok()).unwrap_or(d) };
     let (dry, evil, state, unsafe_) = (pct("dry", 8), pct("evil", 0), pct("state", 0), pct("unsafe", 0));
     let max_patches: usize = opts.get("patches").and_then(|s| s.parse().ok()).unwrap_or(4);
+    crate::wsgen::HUGE_PCT.store(opts.get("huge").and_then(|s| s.parse().ok()).unwrap_or(0), std::sync::atomic::Ordering::Relaxed);
+    crate::wsgen::BIG_FILE_PCT.store(opts.get("bigfile").and_then(|s| s.parse().ok()).unwrap_or(3), std::sync::atomic::Ordering::Relaxed);
+    crate::wsgen::LARGE_OF_20.store(opts.get("large").and_then(|s| s.parse().ok()).unwrap_or(1), std::sync::atomic::Ordering::Relaxed);
     let mut rng = Rng::new(seed ^ 0x9u64);
     for id in 0..n {
         let rich = rng.chance(30);
@@ -405,7 +413,10 @@ fn run_fault_case2(tree: &Snap, inv: &[String], k: Option<usize>, limit: u64) ->
     crate::verif::fault_reset(k);
     // content writes fail in the kernel (EFBIG), not in the hook: the error has to come through the
     // buffered writers of the real code (VERIF_SIMULATED_WRITES=1: the hook returns the error itself)
-    crate::verif::fault_real_writes(std::env::var("VERIF_SIMULATED_WRITES").is_err());
+    // (the file size limit is a property of the process: in a parallel run another thread's fault point
+    // would lift it before the write happens, so there the hook returns the error itself)
+    let parallel = inv.windows(2).any(|w| w[0] == "--threads" && w[1] != "1");
+    crate::verif::fault_real_writes(std::env::var("VERIF_SIMULATED_WRITES").is_err() && !parallel);
     crate::verif::fault_write_limit(limit);
     let r = std::panic::catch_unwind(|| crate::cmd::run(args.iter()));
     let (count, failed, trace) = crate::verif::fault_report();
